@@ -123,6 +123,29 @@ def run_t1(prop, cfg, tier, seed):
             corr_msgs = [l for l in out.split('\n') if l.startswith(('MISMATCH', 'SPECMISMATCH'))]
             if corr is None: broken_tie = (broken_tie or '') + ' driver corr failed: ' + out[-500:]
             else: log('correspondence:', corr)
+    # 4b. numeric exploration of the clauses that have no theorem yet (trace/sym.hpp add_prop): supports the search
+    #     for failing inputs, never counted as an obligation
+    explore = None
+    if not err and bins:
+        pcount = cfg.get('props_thorough', 20000) if tier == 'thorough' else cfg.get('props_quick', 2000)
+        ppath = os.path.join(CACHE, prop + '.props')
+        e = run_bins(bins, ['props', str(seed), str(pcount)], ppath)
+        if not e:
+            ptxt = open(ppath).read()
+            ev = sum(int(x) for x in re.findall(r'PROPS props=\d+ evaluated=(\d+)', ptxt))
+            np_ = sum(int(x) for x in re.findall(r'PROPS props=(\d+)', ptxt))
+            pf = re.findall(r'^PROPFAIL (\S+) (\S+) residual (\S+) tol (\S+) in (.*)$', ptxt, flags=re.M)
+            explore = dict(properties=np_, evaluations=ev, failing=len(pf))
+            if np_: log('numeric exploration:', explore)
+            seenp = set()
+            for name, ty, resid, tol, ins in pf:
+                if name in seenp: continue
+                seenp.add(name)
+                k = is_known(known, name, -1) or next((kk for kk in known if kk.get('unit') == name), None)
+                if k: known_hits[(name, k['what'])] = k; continue
+                violations.append(dict(property=prop, kind='numeric-property-violated-on-real-glm', unit=name, type=ty, component=0,
+                                       inputs=[float(x) for x in ins.split()], residual=float(resid), tolerance=float(tol),
+                                       replay='trace unit binary: props <seed> <count> (property %s)' % name))
     # 4a. spec-vs-glm mismatches are violations with a concrete input
     for l in corr_msgs:
         m = re.match(r'SPECMISMATCH (\S+) (\S+) comp (\d+) in #\[([^\]]*)\] spec (\d+) glm (\d+)', l)
@@ -219,7 +242,7 @@ def run_t1(prop, cfg, tier, seed):
         rule='correspondence: each evaluation is one (unit, input tuple) run through the real glm (float and double) and through E.eval of the generated model, '
              'outputs compared bit for bit; inputs: small integers / uniform / wide-magnitude / special-value lattice from xoshiro256** seeded by VERIF_SEED; '
              'non-trivial = some output component is neither zero nor a copy of an input; spec comparisons = glm output vs textbook spec, exact on small-integer inputs',
-        correspondence=corr, samples=samples, notes=notes, exhaustive=False)
+        correspondence=corr, numeric_exploration=explore, samples=samples, notes=notes, exhaustive=False)
     write_evidence(prop, tier, seed, coverage,
                    ['see DESIGN.md §5 (trusted base) and the per-property "Outside the theorem" paragraph'],
                    time.time() - t0, nviol)
